@@ -483,7 +483,10 @@ def gen_item(rng, big=False, kind=None):
       calls.append(c)
     if len(calls) >= ncalls:
       break
-  return {"kind": kind, "sig": sig, "calls": calls}
+  it = {"kind": kind, "sig": sig, "calls": calls}
+  if kind == "init" and rng.random() < 0.4:
+    it["with_new"] = True
+  return it
 
 
 def module_source(items):
@@ -515,6 +518,10 @@ def module_source(items):
     else:
       L.append("class C%d:" % ii)
       if kind == "init":
+        if it.get("with_new"):
+          # a class that also overrides __new__ (accepting anything): binding errors still come from __init__ only
+          L.append("  def __new__(cls, *a_, **k_):")
+          L.append("    return super().__new__(cls)")
         L.append("  def __init__(%s):" % ps)
         L.append("    V%d.v = %s" % (ii, rt))
       else:
